@@ -73,6 +73,10 @@ def variants(case):
     out.append(('sorted', sorted(xs), 'list'))
     out.append(('dict', xs, 'dict'))
     out.append(('dict-perm', p1, 'dict'))
+    if all(x is not None for x in xs):
+        out.append(('dict', xs, 'extract-bytes-dict'))       # extract(..., encoding=) on encoded examples: the same multiset
+        out.append(('perm', p1, 'extract-bytes-list'))
+        out.append(('dict', xs, 'extract-dict'))
     j = pr.randrange(len(xs)) if xs else 0
     pruned = case['kw'].get('max_patterns') is not None or (case['kw'].get('min_strings_per_pattern') or 1) > 1
     if xs and not pruned:      # (how often an example occurs legitimately matters to the pruning options)
